@@ -6,6 +6,8 @@ import (
 
 	"github.com/benbjohnson/clock"
 	"github.com/libp2p/go-libp2p/core/peer"
+
+	"github.com/celestiaorg/celestia-node/libs/verifhook"
 )
 
 // timedQueue store items for ttl duration and releases it with calling onPop callback. Each item
@@ -59,6 +61,7 @@ func (q *timedQueue) releaseUnsafe() {
 		}
 
 		// item is expired
+		verifhook.PointKV("peers.lock:queue-held-want-pool", q)
 		q.onPop(next.ID)
 		i++
 	}
@@ -71,6 +74,7 @@ func (q *timedQueue) releaseUnsafe() {
 
 func (q *timedQueue) push(peerID peer.ID) {
 	q.Lock()
+	verifhook.PointKV("peers.lock:queue-acquired-from-pool", q)
 	defer q.Unlock()
 
 	q.items = append(q.items, item{
